@@ -617,10 +617,32 @@ Proof.
   rewrite IH by assumption. cbn [rev]. rewrite <- app_assoc. reflexivity.
 Qed.
 
-Lemma lex_atom a t p q o : atom_ok q a ->
-  exists p', fold_left lex_step (atom_bytes a) (B MText t p q o Clean) = B MText (atom_char a :: t) p' (atom_last a) o Clean.
+Lemma last_nonnil {A} (l : list A) d d' : l <> [] -> last l d = last l d'.
 Proof.
-  destruct a as [c|raw c| |]; cbn [atom_ok atom_bytes atom_char atom_last].
+  induction l as [|x l IH]; intros H; [contradiction|]. destruct l as [|y l]; [reflexivity|]. cbn [last] in *. apply IH. discriminate.
+Qed.
+
+(* bytes >= 128 are copied *)
+Lemma lex_high_bytes : forall bs t p q o, Forall (fun c => 128 <= c) bs ->
+  exists p', fold_left lex_step bs (B MText t p q o Clean) = B MText (rev bs ++ t) p' (last bs q) o Clean.
+Proof.
+  induction bs as [|c bs IH]; intros t p q o HF; [exists p; reflexivity|].
+  inversion HF as [|? ? Hc HF']; subst.
+  assert (E : lex_step (B MText t p q o Clean) c = B MText (c :: t) q c o Clean).
+  { unfold lex_step, text_step. cbn [mode b0 b1].
+    assert (E1 : (c =? c_gt) = false) by (chars; lia). assert (E2 : (c =? c_lt) = false) by (chars; lia).
+    assert (E3 : (c =? c_amp) = false) by (chars; lia). assert (E4 : (c =? c_cr) = false) by (chars; lia).
+    assert (E5 : (c =? c_nl) = false) by (chars; lia). assert (E6 : is_ctrl c = false) by (chars; lia).
+    rewrite E1, andb_false_r, E2, E3, E4. cbn [b1]. rewrite E5, andb_false_r, E6. reflexivity. }
+  cbn [fold_left]. rewrite E. destruct (IH (c :: t) q c o HF') as [p' ->]. exists p'.
+  cbn [rev]. rewrite <- app_assoc. cbn [app]. destruct bs as [|n bs]; [reflexivity|].
+  rewrite (last_nonnil (n :: bs) c q) by discriminate. reflexivity.
+Qed.
+
+Lemma lex_atom a t p q o : atom_ok q a ->
+  exists p', fold_left lex_step (atom_bytes a) (B MText t p q o Clean) = B MText (rev (atom_chars a) ++ t) p' (atom_last a) o Clean.
+Proof.
+  destruct a as [c|raw c|raw bs|bs| |]; cbn [atom_ok atom_bytes atom_chars atom_last rev app].
   - intros (H1 & H2 & H3 & H4 & H5 & H6 & H7). exists q.
     cbn [fold_left]. unfold lex_step, text_step. cbn [mode b0 b1].
     assert (E1 : (p =? c_rb) && (q =? c_rb) && (c =? c_gt) = false) by (chars; lia).
@@ -637,6 +659,16 @@ Proof.
     rewrite E0, lex_ent_chars by assumption. rewrite app_nil_r. cbn [fold_left].
     unfold lex_step. cbn [mode]. replace (c_semi =? c_semi) with true by reflexivity.
     rewrite frev_rev, rev_involutive, H2, H3. reflexivity.
+  - intros (H1 & H2 & H3 & H4). exists 0.
+    cbn [fold_left]. rewrite fold_left_app.
+    assert (E0 : lex_step (B MText t p q o Clean) c_amp = B (MEnt []) t p q o Clean).
+    { unfold lex_step, text_step. cbn [mode b0 b1].
+      replace (c_amp =? c_gt) with false by reflexivity. rewrite andb_false_r. reflexivity. }
+    rewrite E0, lex_ent_chars by assumption. rewrite app_nil_r. cbn [fold_left].
+    unfold lex_step. cbn [mode]. replace (c_semi =? c_semi) with true by reflexivity.
+    rewrite frev_rev, rev_involutive, H2. unfold reset_b, set_mode, puts. cbn [mode txt b0 b1 out st]. rewrite frev_rev. reflexivity.
+  - intros (H1 & H2 & H3). destruct (lex_high_bytes bs t p q o H2) as [p' ->]. exists p'.
+    rewrite (last_nonnil bs q 0 H1). reflexivity.
   - intros _. exists q. cbn [fold_left]. unfold lex_step, text_step. cbn [mode b0 b1].
     replace (c_cr =? c_gt) with false by reflexivity. rewrite andb_false_r. reflexivity.
   - intros _. exists c_cr. cbn [fold_left]. unfold lex_step, text_step. cbn [mode b0 b1].
@@ -650,31 +682,51 @@ Proof.
   induction l as [|a l IH]; intros t p q o H.
   - exists p, q. reflexivity.
   - destruct H as [Ha Hl]. destruct (lex_atom a t p q o Ha) as [p1 E1].
-    destruct (IH (atom_char a :: t) p1 (atom_last a) o Hl) as (p' & q' & E2).
+    destruct (IH (rev (atom_chars a) ++ t) p1 (atom_last a) o Hl) as (p' & q' & E2).
     exists p', q'. unfold text_bytes in *. cbn [map concat]. rewrite fold_left_app, E1, E2.
-    unfold text_chars. cbn [map rev]. rewrite <- app_assoc. reflexivity.
+    unfold text_chars. cbn [map concat]. rewrite rev_app_distr, <- app_assoc. reflexivity.
 Qed.
 
-Definition ascii (s : bytes) : Prop := Forall (fun c => c < 128) s.
-Lemma utf8_valid_ascii s : ascii s -> utf8_valid s = true.
+(* UTF-8 validity composes *)
+Fixpoint urun (u : ustate) (s : bytes) : option ustate :=
+  match s with
+  | [] => Some u
+  | c :: r => match utf8_step u c with Some u' => urun u' r | None => None end
+  end.
+Lemma utf8_from_run : forall s u, utf8_from u s = match urun u s with Some U0 => true | _ => false end.
 Proof.
-  unfold utf8_valid. induction 1 as [|c s Hc Hs IH]; [reflexivity|]. cbn [utf8_from utf8_step].
-  destruct (c <? 128) eqn:E; [exact IH|lia].
+  induction s as [|c r IH]; intros u; cbn [utf8_from urun]; [destruct u; reflexivity|].
+  destruct (utf8_step u c); [apply IH|reflexivity].
 Qed.
-Lemma ascii_rev s : ascii s -> ascii (rev s).
-Proof. intros H. apply Forall_forall. intros x Hx. apply in_rev in Hx. unfold ascii in H. rewrite Forall_forall in H. auto. Qed.
-
-Lemma flush_ascii t p q o : ascii t -> flush (B MText t p q o Clean) = B MText [] 0 0 (flushed t o) Clean.
+Lemma urun_app : forall a u b, urun u (a ++ b) = match urun u a with Some u' => urun u' b | None => None end.
+Proof. induction a as [|c a IH]; intros u b; cbn [app urun]; [reflexivity|]. destruct (utf8_step u c); [apply IH|reflexivity]. Qed.
+Lemma utf8_valid_run s : utf8_valid s = true <-> urun U0 s = Some U0.
 Proof.
-  intros H. unfold flush, flushed. cbn [mode txt b0 b1 out st]. rewrite utf8_valid_ascii by (rewrite frev_rev; apply ascii_rev; assumption).
-  destruct t; reflexivity.
+  unfold utf8_valid. rewrite utf8_from_run. destruct (urun U0 s) as [[| | |]|]; split; intros H; try discriminate; reflexivity.
+Qed.
+Lemma utf8_valid_app a b : utf8_valid a = true -> utf8_valid b = true -> utf8_valid (a ++ b) = true.
+Proof. rewrite !utf8_valid_run. intros Ha Hb. rewrite urun_app, Ha. exact Hb. Qed.
+Lemma utf8_valid_ascii1 c : c < 128 -> utf8_valid [c] = true.
+Proof. intros H. unfold utf8_valid. cbn. destruct (c <? 128) eqn:E; [reflexivity|lia]. Qed.
+
+(* the pending (reversed) text of a run is valid so far *)
+Definition uvalid (t : bytes) : Prop := utf8_valid (rev t) = true.
+Lemma uvalid_nil : uvalid [].
+Proof. reflexivity. Qed.
+Lemma uvalid_push t s : uvalid t -> utf8_valid s = true -> uvalid (rev s ++ t).
+Proof. unfold uvalid. intros Ht Hs. rewrite rev_app_distr, rev_involutive. apply utf8_valid_app; assumption. Qed.
+
+Lemma flush_valid t p q o : uvalid t -> flush (B MText t p q o Clean) = B MText [] 0 0 (flushed t o) Clean.
+Proof.
+  intros H. unfold flush, flushed. cbn [mode txt b0 b1 out st]. rewrite frev_rev, H.
+  destruct t; [reflexivity|]. rewrite <- frev_rev. reflexivity.
 Qed.
 
-Lemma lex_lt t p q o : ascii t -> lex_step (B MText t p q o Clean) c_lt = B MLt [] 0 0 (flushed t o) Clean.
+Lemma lex_lt t p q o : uvalid t -> lex_step (B MText t p q o Clean) c_lt = B MLt [] 0 0 (flushed t o) Clean.
 Proof.
   intros H. unfold lex_step, text_step. cbn [mode b0 b1]. replace (c_lt =? c_gt) with false by reflexivity.
   rewrite andb_false_r. replace (c_lt =? c_lt) with true by reflexivity.
-  rewrite flush_ascii by assumption. reflexivity.
+  rewrite flush_valid by assumption. reflexivity.
 Qed.
 
 Lemma lex_start_name_chars : forall r acc t p q o,
@@ -734,7 +786,7 @@ Proof.
     rewrite E, fold_left_app, lex_end_ws by assumption. reflexivity.
 Qed.
 
-Lemma lex_piece_tag pc t p q o : piece_ok pc -> is_text pc = false -> ascii t ->
+Lemma lex_piece_tag pc t p q o : piece_ok pc -> is_text pc = false -> uvalid t ->
   fold_left lex_step (piece_bytes pc) (B MText t p q o Clean) = B MText [] 0 0 (rev (piece_tokens pc) ++ flushed t o) Clean.
 Proof.
   destruct pc as [l|n ws|n ws|n ws]; intros HP HT HA; try discriminate; destruct HP as [HN HW];
@@ -756,20 +808,31 @@ Proof.
     replace (rev r ++ [c]) with (rev (c :: r)) by reflexivity. apply (lex_start_tail (c :: r) ws _ HW).
 Qed.
 
-Lemma text_chars_nonnil l : l <> [] -> text_chars l <> [].
-Proof. destruct l; [contradiction|discriminate]. Qed.
-
-Lemma atoms_chars_ascii : forall l prev, atoms_ok prev l -> ascii (text_chars l).
+Lemma atom_chars_facts prev a : atom_ok prev a -> atom_chars a <> [] /\ utf8_valid (atom_chars a) = true.
 Proof.
-  induction l as [|a l IH]; intros prev H; [constructor|]. destruct H as [Ha Hl]. constructor; [|apply (IH _ Hl)].
-  destruct a as [c|raw c| |]; cbn in *; [tauto|tauto|reflexivity|reflexivity].
+  destruct a as [c|raw c|raw bs|bs| |]; cbn [atom_ok atom_chars].
+  - intros (H1 & _). split; [discriminate|apply utf8_valid_ascii1; assumption].
+  - intros (_ & _ & _ & H). split; [discriminate|apply utf8_valid_ascii1; assumption].
+  - intros (_ & _ & H1 & H2). auto.
+  - intros (H1 & _ & H2). auto.
+  - intros _. split; [discriminate|reflexivity].
+  - intros _. split; [discriminate|reflexivity].
+Qed.
+
+Lemma text_chars_facts : forall l prev, atoms_ok prev l -> (l <> [] -> text_chars l <> []) /\ utf8_valid (text_chars l) = true.
+Proof.
+  induction l as [|a l IH]; intros prev H; [split; [intros C; contradiction|reflexivity]|].
+  destruct H as [Ha Hl]. destruct (atom_chars_facts _ _ Ha) as [N1 V1]. destruct (IH _ Hl) as [_ V2].
+  unfold text_chars in *. cbn [map concat]. split.
+  - intros _ E. apply app_eq_nil in E. destruct E. contradiction.
+  - apply utf8_valid_app; assumption.
 Qed.
 
 Lemma lex_pieces : forall ps t p q o,
-  Forall piece_ok ps -> no_adjacent_text ps -> ascii t ->
+  Forall piece_ok ps -> no_adjacent_text ps -> uvalid t ->
   (match ps with pc :: _ => is_text pc = true -> t = [] /\ q = 0 | [] => True end) ->
   exists t' p' q' o', fold_left lex_step (render ps) (B MText t p q o Clean) = B MText t' p' q' o' Clean
-     /\ rev (flushed t' o') = rev (flushed t o) ++ tokens_of ps /\ ascii t'.
+     /\ rev (flushed t' o') = rev (flushed t o) ++ tokens_of ps /\ uvalid t'.
 Proof.
   induction ps as [|pc ps IH]; intros t p q o HP HA HAS HT.
   - exists t, p, q, o. split; [reflexivity|]. split; [|assumption]. cbn. rewrite app_nil_r. reflexivity.
@@ -781,54 +844,18 @@ Proof.
       destruct (HT eq_refl) as [-> ->].
       destruct (lex_atoms l [] p 0 o Hok) as (p1 & q1 & E1). cbn [piece_bytes]. rewrite E1.
       destruct (IH (rev (text_chars l) ++ []) p1 q1 o HP' HA') as (t' & p' & q' & o' & E2 & E3 & E4).
-      { rewrite app_nil_r. apply ascii_rev. apply (atoms_chars_ascii l 0 Hok). }
+      { apply uvalid_push; [apply uvalid_nil|apply (text_chars_facts l 0 Hok)]. }
       { destruct ps as [|pc2 ps]; [exact I|]. destruct HA as [HA _]. cbn in HA. intros H. rewrite H in HA. discriminate. }
       exists t', p', q', o'. split; [exact E2|]. split; [|exact E4]. rewrite E3. cbn [piece_tokens app flushed rev].
       rewrite app_nil_r. destruct (rev (text_chars l)) as [|c r] eqn:ER.
-      * exfalso. apply (text_chars_nonnil l Hne). apply (f_equal (@rev _)) in ER. rewrite rev_involutive in ER. exact ER.
+      * exfalso. apply (proj1 (text_chars_facts l 0 Hok) Hne). apply (f_equal (@rev _)) in ER. rewrite rev_involutive in ER. exact ER.
       * cbn [flushed rev]. rewrite <- ER, frev_rev, rev_involutive, <- app_assoc. reflexivity.
     + rewrite (lex_piece_tag pc t p q o Hpc T HAS).
       destruct (IH [] 0 0 (rev (piece_tokens pc) ++ flushed t o) HP' HA') as (t' & p' & q' & o' & E2 & E3 & E4).
-      { constructor. }
+      { apply uvalid_nil. }
       { destruct ps; [exact I|]. intros _. split; reflexivity. }
       exists t', p', q', o'. split; [exact E2|]. split; [|exact E4]. rewrite E3. cbn [flushed].
       rewrite rev_app_distr, rev_involutive, <- app_assoc. reflexivity.
-Qed.
-
-Lemma atoms_ascii : forall l prev, atoms_ok prev l -> Forall (fun c => c < 128) (text_bytes l).
-Proof.
-  induction l as [|a l IH]; intros prev H; [constructor|]. destruct H as [Ha Hl].
-  unfold text_bytes in *. cbn [map concat]. apply Forall_app. split; [|apply (IH _ Hl)].
-  destruct a as [c|raw c| |]; cbn in *.
-  - constructor; [tauto|constructor].
-  - destruct Ha as (HF & _). constructor; [chars; lia|]. apply Forall_app. split; [|constructor; [chars; lia|constructor]].
-    eapply Forall_impl; [|exact HF]. intros b Hb. apply (ent_char_facts _ Hb).
-  - constructor; [chars; lia|constructor].
-  - repeat constructor; chars; lia.
-Qed.
-
-Lemma piece_ascii pc : piece_ok pc -> Forall (fun c => c < 128) (piece_bytes pc).
-Proof.
-  assert (NM : forall n, name_ok n -> Forall (fun c => c < 128) n).
-  { intros [|c r] H; [contradiction|]. destruct H as [Hc Hr]. constructor; [apply (name_start_facts _ Hc)|].
-    eapply Forall_impl; [|exact Hr]. intros b Hb. apply (name_char_facts _ Hb). }
-  assert (WS : forall ws, ws_ok ws -> Forall (fun c => c < 128) ws).
-  { intros ws H. eapply Forall_impl; [|exact H]. intros b Hb. apply (blank_facts _ Hb). }
-  destruct pc as [l|n ws|n ws|n ws]; cbn [piece_ok piece_bytes]; intros H.
-  - apply (atoms_ascii l 0). tauto.
-  - destruct H as [H1 H2]. constructor; [chars; lia|]. apply Forall_app. split; [auto|]. apply Forall_app. split; [auto|].
-    constructor; [chars; lia|constructor].
-  - destruct H as [H1 H2]. constructor; [chars; lia|]. constructor; [chars; lia|]. apply Forall_app. split; [auto|]. apply Forall_app. split; [auto|].
-    constructor; [chars; lia|constructor].
-  - destruct H as [H1 H2]. constructor; [chars; lia|]. apply Forall_app. split; [auto|]. apply Forall_app. split; [auto|].
-    repeat constructor; chars; lia.
-Qed.
-
-Lemma render_ascii ps : Forall piece_ok ps -> existsb (fun c => 128 <=? c) (render ps) = false.
-Proof.
-  intros HP. assert (HF : Forall (fun c => c < 128) (render ps)).
-  { induction HP as [|pc ps Hpc HP IH]; [constructor|]. unfold render in *. cbn [map concat]. apply Forall_app. split; [apply piece_ascii; assumption|assumption]. }
-  induction HF as [|c r Hc HF IH]; [reflexivity|]. cbn [existsb]. rewrite IH. destruct (128 <=? c) eqn:E; [lia|reflexivity].
 Qed.
 
 Theorem lex_rendered ps : Forall piece_ok ps -> no_adjacent_text ps ->
@@ -836,10 +863,10 @@ Theorem lex_rendered ps : Forall piece_ok ps -> no_adjacent_text ps ->
 Proof.
   intros HP HA.
   destruct (lex_pieces ps [] 0 0 [] HP HA) as (t' & p' & q' & o' & E & ET & EA).
-  { constructor. }
+  { apply uvalid_nil. }
   { destruct ps; [exact I|]. intros _. split; reflexivity. }
   unfold raw_tokens, raw_status, lex_run, lex_init. rewrite E.
-  unfold lex_finish. cbn [mode]. rewrite flush_ascii by assumption. cbn [out st]. split; [|reflexivity].
+  unfold lex_finish. cbn [mode]. rewrite flush_valid by assumption. cbn [out st]. split; [|reflexivity].
   rewrite frev_rev. cbn in ET. rewrite <- ET. reflexivity.
 Qed.
 
@@ -1510,7 +1537,7 @@ Proof. intros ls b H. split; [apply gtext_read; exact H | apply (glines_read ls 
 (* ------------------------------------------------------------------------------------------- *)
 (* a concrete document satisfying every hypothesis of the theorems above, and the theorems applied to it *)
 Definition ex_text : list atom :=
-  map ARaw (raw " k = v1 "%hex) ++ [ACrLf] ++ map ARaw (raw "#c"%hex) ++ [ARaw 10] ++
+  map ARaw (raw " k = v1 "%hex) ++ [ACrLf] ++ map ARaw (raw "#c"%hex) ++ [AUtf8 [230; 151; 165]; AEntU (raw "#233"%hex) [195; 169]; ARaw 10] ++
   map ARaw (raw "k=a"%hex) ++ [AEnt (raw "amp"%hex) 38] ++ map ARaw (raw "b=c ]"%hex) ++ [AEnt (raw "gt"%hex) 62; ARaw 10].
 Definition ex_doc : list piece :=
   [POpen (raw "a"%hex) [32]; PText ex_text; PEmpty (raw "b.1"%hex) []; PClose (raw "a"%hex) [10];
@@ -1581,7 +1608,7 @@ Qed.
 (* the same document read as grammar lines *)
 Definition ex_dec (l : list atom) : list gline * bool :=
   if (length l =? 5)%nat then ([GKV [] (raw "top"%hex) [] [] (raw "1"%hex) []], false)
-  else ([GKV [32] (raw "k"%hex) [32] [32] (raw "v1"%hex) [32]; GComment [] (raw "c"%hex);
+  else ([GKV [32] (raw "k"%hex) [32] [32] (raw "v1"%hex) [32]; GComment [] (raw "c"%hex ++ [230; 151; 165; 195; 169]);
          GKV [] (raw "k"%hex) [] [] (raw "a&b=c ]>"%hex) []], true).
 
 Ltac notin := intros HH; vm_compute in HH; repeat (destruct HH as [HH|HH]; [discriminate HH|]); contradiction.
